@@ -23,8 +23,8 @@ checks = {
    text="all call sequences of GetOrCreate (scripted create outcome)/Remove/Clear for Cache, ECache (non-injective key mapping) and ExpirableCache, capacities 1..4(5), to a fixpoint; oracle: reference LRU list plus exact ledger of create/delete callbacks per call",
    note="values are opaque serial numbers (data independence); sequential use only (concurrency is C09)"),
  "C10": dict(engine="Q", cat="model_checking", tech=Q,
-   text="all histories of Add/Remove/Get/Len/First and up to 3 open iterators over 2-3 keys to a fixpoint of the node list + iterator positions; oracle: append-only log with cursors, structural and refCnt invariants through an accessor",
-   note="map.go is rewritten so that its sync.Pool is the deterministic shim pool; the free list (pooled nodes and their residual fields) is part of the state key"),
+   text="all histories of Add/Remove/Get/Len/First and up to 3 open iterators over 2-4 keys to a fixpoint of the complete implementation state; oracle: append-only log with cursors, structural and refCnt invariants through an accessor",
+   note="map.go is rewritten so that its sync.Pool is the deterministic shim pool; the state key contains the complete reachable state of the map object and its open iterators (reflective deep dump: every field, pointers numbered in visiting order), so hidden state added by a change cannot be merged away; quick: 3x1x2, 2x2x2, 2x1x3 (keys x values x iterators), thorough: 3x2x2, 2x2x3, 4x1x2"),
  "C11": dict(engine="Q", cat="model_checking", tech=Q,
    text="same state graphs as C10 and C08 explored to a fixpoint; oracle: with every iterator closed / after every LRU call, nodes reachable from the list head == live entries + 1, no removed-but-linked node, every refCnt 0; a leak prevents the fixpoint",
    note="pool-parked nodes are not counted (the property speaks of what is reachable from the list); includes a small Engine-S section (2-3 threads with overlapping creations, P<=2) for the capacity bound"),
